@@ -771,7 +771,16 @@ pub fn run_property(def: &PropDef, tier: Tier, seed: u64, verif_dir: PathBuf) ->
                 return 2;
             }
         };
-        let r = catch(|| (def.replay)(&v)).unwrap_or_else(|p| Err(format!("harness panic in replay: {}", p)));
+        // a finding shared with another property (`also`) is replayed by the oracle of the property
+        // its replay file was written for
+        let replay_fn = v
+            .get("property")
+            .and_then(|p| p.as_str())
+            .filter(|p| *p != def.id)
+            .and_then(|p| crate::props::all().into_iter().find(|d| d.id == p))
+            .map(|d| d.replay)
+            .unwrap_or(def.replay);
+        let r = catch(|| replay_fn(&v)).unwrap_or_else(|p| Err(format!("harness panic in replay: {}", p)));
         match (k.status.as_str(), r) {
             ("known", Err(_)) => {
                 println!("KNOWN-FINDING: property={} {} [{}]", def.id, k.what, k.id);
